@@ -54,6 +54,8 @@ type Config struct {
 	DumpDir        string                   // where queries answered unknown are written
 	Trace          bool
 	Deadline       time.Time
+	Prefix         []int32 // start exploration at this decision prefix
+	Single         bool    // follow one path only (debugging)
 }
 
 // NDValue is one entry of a replay vector: the value an nd* call returned.
@@ -147,6 +149,7 @@ type path struct {
 	observed   []string
 	observedSym []obsEntry
 	lastModel  map[string]string
+	modelFromFresh bool
 	assertFail []string
 	expectPan  bool
 	mapPerm    bool
@@ -184,6 +187,47 @@ var fallbackSolvers = []SolverSpec{
 	{"z3-4.8.12", []string{"z3", "-in", "-T:60"}},
 	{"z3-5.1.0", []string{"z3-new", "-in", "-T:60"}},
 	{"cvc5-1.0", []string{"cvc5", "--lang=smt2", "--strings-exp", "--tlimit=60000"}},
+}
+
+// modelFresh obtains model values for names from a fresh solver process.
+func (p *path) modelFresh(names []string) (map[string]string, bool) {
+	var b strings.Builder
+	b.WriteString("(set-logic ALL)\n(set-option :produce-models true)\n")
+	for _, l := range p.script {
+		b.WriteString(l)
+		b.WriteByte('\n')
+	}
+	for _, l := range p.sv.scope {
+		b.WriteString(l)
+		b.WriteByte('\n')
+	}
+	b.WriteString("(check-sat)\n(get-value (" + strings.Join(names, " ") + "))\n")
+	atomic.AddInt64(&p.ex.res.FreshRetries, 1)
+	for _, spec := range fallbackSolvers[:2] {
+		cmd := exec.Command(spec.Argv[0], spec.Argv[1:]...)
+		cmd.Stdin = strings.NewReader(b.String())
+		out, _ := cmd.CombinedOutput()
+		s := strings.TrimSpace(string(out))
+		if !strings.HasPrefix(s, "sat") {
+			continue
+		}
+		rest := strings.TrimSpace(s[3:])
+		lst, ok := parseSexp(rest).([]any)
+		if !ok {
+			continue
+		}
+		vals := map[string]string{}
+		for _, pr := range lst {
+			if pair, ok := pr.([]any); ok && len(pair) == 2 {
+				if name, ok := pair[0].(string); ok {
+					vals[name] = sexpString(pair[1])
+				}
+			}
+		}
+		atomic.AddInt64(&p.ex.res.FreshDecided, 1)
+		return vals, true
+	}
+	return nil, false
 }
 
 // solveFresh decides pc ∧ extra with fresh solver processes.
@@ -281,7 +325,7 @@ func (p *path) choose(guards []string, exhaustive bool) int {
 	if len(feas) == 0 {
 		panic(pathStop{reason: "no feasible option (path condition unsatisfiable)", pruned: true})
 	}
-	if len(feas) > 1 {
+	if len(feas) > 1 && !p.ex.cfg.Single {
 		atomic.AddInt64(&res.Forks, 1)
 		base := append([]int32(nil), p.decisions...)
 		var items []workItem
@@ -393,7 +437,7 @@ func Explore(cfg Config) *Result {
 	ex := &explorer{cfg: cfg, res: res}
 	ex.shared = newSharedInfo(&cfg)
 	ex.cond = sync.NewCond(&ex.mu)
-	ex.stack = []workItem{{nil}}
+	ex.stack = []workItem{{cfg.Prefix}}
 	t0 := time.Now()
 	var wg sync.WaitGroup
 	for w := 0; w < cfg.Workers; w++ {
@@ -540,7 +584,7 @@ func (ex *explorer) runPath(sv *solver, prefix []int32, funcs, intr, stubs map[s
 			v.Vector = vec
 			v.Observed = p.evalObserved()
 		} else {
-			ex.inconclusive("no model for a panicking path: " + panicMsg)
+			ex.inconclusive(fmt.Sprintf("no model for a panicking path: %s at %s [decisions %v]", panicMsg, i.lastWhere, p.decisions))
 			return
 		}
 		v.PC = append([]string(nil), p.pc...)
@@ -575,14 +619,27 @@ func (p *path) model() ([]NDValue, bool) {
 		}
 	}
 	vals := map[string]string{}
+	p.modelFromFresh = false
 	if len(names) > 0 {
-		if r := p.sv.checkSat(); r != "sat" {
+		r := p.sv.checkSat()
+		if r == "unsat" {
+			p.ex.inconclusive(fmt.Sprintf("path condition became unsatisfiable (executor error) [decisions %v]", p.decisions))
 			return nil, false
 		}
-		var err error
-		vals, err = p.sv.getValues(names)
-		if err != nil {
-			return nil, false
+		if r == "sat" {
+			var err error
+			vals, err = p.sv.getValues(names)
+			if err != nil {
+				return nil, false
+			}
+		} else {
+			// incremental session timed out: ask fresh processes for a model
+			var ok bool
+			vals, ok = p.modelFresh(names)
+			if !ok {
+				return nil, false
+			}
+			p.modelFromFresh = true
 		}
 	}
 	p.lastModel = vals
@@ -617,6 +674,10 @@ func (p *path) evalObserved() []string {
 	for k := range out {
 		o := p.observedSym[k]
 		if o.term == "" {
+			continue
+		}
+		if p.modelFromFresh {
+			out[k] = o.text + "?"
 			continue
 		}
 		p.sv.send("(get-value (" + o.term + "))")
